@@ -201,6 +201,10 @@ class _NPathSegment:
 
 _NPATH_IDENTIFIER_RE = re.compile(r"^[A-Za-z_][A-Za-z0-9_']*\Z")
 
+_NIX_KEYWORDS = frozenset(
+    {"assert", "else", "if", "in", "inherit", "let", "rec", "then", "with"}
+)
+
 
 def _parse_npath(npath: str) -> list[_NPathSegment]:
     """Parse a dot-delimited NPath with optional quoted segments."""
@@ -272,7 +276,11 @@ def _parse_npath(npath: str) -> list[_NPathSegment]:
 
 def _format_attr_name(segment: _NPathSegment) -> str:
     """Format a segment as a binding name, quoting when needed."""
-    if segment.quoted or not _NPATH_IDENTIFIER_RE.match(segment.name):
+    if (
+        segment.quoted
+        or segment.name in _NIX_KEYWORDS
+        or not _NPATH_IDENTIFIER_RE.match(segment.name)
+    ):
         escaped = _escape_nix_string(segment.name, escape_interpolation=True)
         return f'"{escaped}"'
     return segment.name
